@@ -158,7 +158,8 @@ def bounded_fallback(prop, tier, seed, known_classes=()):
     b = cfg.get("bounded")
     if not b:
         return None
-    res, err = _run_bin(dict(crate=b["crate"], bin=b.get("bin")), ["--bounded", "--seed", str(seed), "--tier", tier])
+    # the proof is lost, so the bounded replay is all there is for this run: use its larger (thorough) bound in every tier
+    res, err = _run_bin(dict(crate=b["crate"], bin=b.get("bin")), ["--bounded", "--seed", str(seed), "--tier", "thorough"])
     if err:
         return None
     summ = [r for r in res if r.get("summary")]
